@@ -3,45 +3,54 @@ import Ggql.Driver.Tables
 namespace Ggql.Driver.C15
 open Ggql
 
-/-- D32 (read from `writeDesc` by the translator): descriptions are printed raw (no escaping) — a backslash or
+/- D32 (read from `writeDesc` by the translator): descriptions are printed raw (no escaping) — a backslash or
     `"""` does not re-parse.
-    D33 (hand-set): `ggqlgen -w / -e` write `root.Types()` only: directive definitions are lost. -/
-def d33 : Bool := true
+    D33 (read from cmd/ggqlgen/main.go by the translator): `ggqlgen -w / -e` write `root.Types()` only:
+    directive definitions are lost. -/
 
-/-- case: (c15 hasBackslash hasTriple hasDirectiveDef);
-    obs: (obs wholeAccepted wholeSame wholeFixedPoint toolAccepted toolSame) -/
+/-- case: (c15 hasBackslash hasTriple hasDirectiveDef usesDirective printedHasBacktick printedHasCR);
+    obs: (obs wholeAccepted wholeSame wholeFixedPoint toolAccepted toolSame embedAccepted embedSame) -/
 def handle (tb : Tables) (c impl : T) : String :=
   let d32 := tb.descRaw
+  let d33 := tb.toolOmitsDirectives
+  let d73 := tb.toolEmbedRaw
   match c with
-  | .node "c15" [bs, tq, dir, used] =>
-    (match bs.asBool, tq.asBool, dir.asBool, used.asBool with
-     | some bs, some tq, some dir, some used =>
-       let predict := fun (d32 d33 : Bool) =>
+  | .node "c15" [bs, tq, dir, used, tick, cr] =>
+    (match bs.asBool, tq.asBool, dir.asBool, used.asBool, tick.asBool, cr.asBool with
+     | some bs, some tq, some dir, some used, some tick, some cr =>
+       let predict := fun (d32 d33 d73 : Bool) =>
          let whole := !(d32 && (bs || tq))
          -- the tool's output lacks the directive definitions: it does not load when one of them is used,
          -- and loads as a different schema when they are only defined
          let toolLoads := whole && !(d33 && dir && used)
          let toolSame := whole && !(d33 && dir)
-         T.node "obs" [T.ofBool whole, T.ofBool whole, T.ofBool whole, T.ofBool toolLoads, T.ofBool toolSame]
-       let cur := predict d32 d33
-       let alts := [{ flag := "D32", onInCur := d32, obs := predict (!d32) d33 : Alt },
-                    { flag := "D33", onInCur := d33, obs := predict d32 (!d33) }]
-       let want := predict false false
+         -- the embed output copies the text into a Go raw string literal: a backtick ends the literal (the
+         -- file is not Go any more), a carriage return is dropped by the compiler (a different description)
+         let embedLoads := toolLoads && !(d73 && tick)
+         let embedSame := toolSame && !(d73 && (tick || cr))
+         T.node "obs" [T.ofBool whole, T.ofBool whole, T.ofBool whole, T.ofBool toolLoads, T.ofBool toolSame,
+                       T.ofBool embedLoads, T.ofBool embedSame]
+       let cur := predict d32 d33 d73
+       let alts := [{ flag := "D32", onInCur := d32, obs := predict (!d32) d33 d73 : Alt },
+                    { flag := "D33", onInCur := d33, obs := predict d32 (!d33) d73 },
+                    { flag := "D73", onInCur := d73, obs := predict d32 d33 (!d73) }]
+       let want := predict false false false
+       let devs := (if d33 && dir then ["D33"] else []) ++ (if d73 && (tick || cr) then ["D73"] else [])
        -- a description with a backslash or a triple quote is printed unescaped (D32): the printed text is then
        -- some other string sequence, and whether it happens to be rejected, or accepted as a different schema,
        -- depends on what follows it; no particular failure mode is predicted
        if d32 && (bs || tq) then
-         (if impl == want then "ok" else "dev " ++ ",".intercalate (["D32"] ++ (if d33 && dir then ["D33"] else [])))
+         (if impl == want then "ok" else "dev " ++ ",".intercalate (["D32"] ++ devs))
        else if impl == cur then
-         (if impl == want then "ok"
-          else "dev " ++ ",".intercalate ((if d32 && (bs || tq) then ["D32"] else []) ++ (if d33 && dir then ["D33"] else [])))
+         (if impl == want then "ok" else "dev " ++ ",".intercalate devs)
        else
          (match alts.find? (fun a => a.obs == impl) with
           | some a => if impl == want then "repaired " ++ a.flag else "mismatch spec-bad " ++ cur.render
           | none => "mismatch " ++ (if impl == want then "spec-ok " else "spec-bad ") ++ cur.render)
-     | _, _, _, _ => "bad-op")
+     | _, _, _, _, _, _ => "bad-op")
   | _ => "bad-op"
 
-def flags (tb : Tables) : List (String × Bool) := [("D32", tb.descRaw), ("D33", d33)]
+def flags (tb : Tables) : List (String × Bool) :=
+  [("D32", tb.descRaw), ("D33", tb.toolOmitsDirectives), ("D73", tb.toolEmbedRaw)]
 
 end Ggql.Driver.C15
